@@ -47,7 +47,7 @@ static struct rec LOGGED[64]; static int nlogged;
 static const char *prio_names[] = { "emerg", "alert", "crit", "error", "warning", "notice", "info", "debug", "trace" };
 static char dir[128], dumpf[160], dmgf[160];
 
-static int cur_line_len;
+static int cur_line_len, bb_stderr_too, bb_devnull = -1;
 static int bb_line_len;      /* > 0: the blackbox target is configured for longer lines than the default */
 static void bb_start(int size)
 {
@@ -57,13 +57,29 @@ static void bb_start(int size)
 	r = qb_log_ctl(QB_LOG_BLACKBOX, QB_LOG_CONF_SIZE, size);
 	if (r) vp_broken("blackbox size refused: %d", r);
 	qb_log_filter_ctl(QB_LOG_BLACKBOX, QB_LOG_FILTER_ADD, QB_LOG_FILTER_FILE, "bb.c", LOG_TRACE);   /* not libqb's own trace messages */
+	if (bb_stderr_too) {
+		/* a text target in a lower slot formats the same call before the blackbox stores it */
+		qb_log_filter_ctl(QB_LOG_STDERR, QB_LOG_FILTER_ADD, QB_LOG_FILTER_FILE, "bb.c", LOG_TRACE);
+		qb_log_ctl(QB_LOG_STDERR, QB_LOG_CONF_ENABLED, QB_TRUE);
+	}
 	if (bb_line_len) { r = qb_log_ctl(QB_LOG_BLACKBOX, QB_LOG_CONF_MAX_LINE_LEN, bb_line_len); if (r) vp_broken("blackbox line length refused: %d", r); }
 	r = qb_log_ctl(QB_LOG_BLACKBOX, QB_LOG_CONF_ENABLED, QB_TRUE);
 	if (r) vp_broken("blackbox enable failed: %d", r);
 	nlogged = 0;
 }
 
+static void bb_log_inner(int kind);
 static void bb_log(int kind)
+{
+	if (bb_stderr_too) {
+		int save = dup(2);
+		if (bb_devnull < 0) bb_devnull = open("/dev/null", O_WRONLY);
+		dup2(bb_devnull, 2);
+		bb_log_inner(kind);
+		dup2(save, 2); close(save);
+	} else bb_log_inner(kind);
+}
+static void bb_log_inner(int kind)
 {
 	struct rec *r = &LOGGED[nlogged];
 	static char big[600];
@@ -371,6 +387,7 @@ static void run_roundtrip(void)
 	static const int sizes[] = { 1024, 2048, 4096 };
 	int size = sizes[vp_choose(3, "blackbox size")], step, rc;
 	char before[4096], after[4096];
+	bb_stderr_too = vp_choose(2, "stderr target enabled as well");
 	bb_start(size);
 	vp_log("blackbox of %d bytes", size);
 	{
@@ -395,6 +412,7 @@ static void run_roundtrip(void)
 		check_round_trip("dump after a record");
 	}
 	qb_log_fini();
+	bb_stderr_too = 0;
 }
 
 static void run_longlines(void)
